@@ -1117,6 +1117,12 @@ def validateRefTable (nStrings : Nat) (refs : List RefEntry) : Except Err Unit :
 
 def pouExists (index : List PouEntry) (id : UInt32) : Bool := index.any (fun p => p.id == id)
 
+/-- `if let TypeData::Interface { methods } = &entry.data { slot as usize >= methods.len() }` -/
+def slotOutOfRange (entry : TypeEntry) (slot : UInt32) : Bool :=
+  match entry.data with
+  | .interface methods => decide (slot.toNat ≥ methods.length)
+  | _ => false
+
 /-- state of the instruction walk: instruction starts and `(pc, offset)` of every jump -/
 structure Walk where
   starts : List Nat := []
@@ -1153,18 +1159,18 @@ def walkInstructions (index : List PouEntry) (types : List TypeEntry) :
       | .error e => .error e
       | .ok (_, rest') => walkInstructions index types fuel (pc + 2) rest' w
     | .callVirtual =>
-      match (do let t ← readU32; let s ← readU32; pure (t, s) : Rd (UInt32 × UInt32)) rest with
+      match readU32 rest with
       | .error e => .error e
-      | .ok ((ifaceTy, slot), rest') =>
-        match types[ifaceTy.toNat]? with
-        | none => .error (.invalidIndex .type ifaceTy)
-        | some entry =>
-          if entry.kind ≠ .interface then .error (.invalidSection .callVirtualExpectsInterface) else
-          let bad := match entry.data with
-            | .interface methods => decide (slot.toNat ≥ methods.length)
-            | _ => false
-          if bad then .error (.invalidSection .callVirtualSlotOutOfRange)
-          else walkInstructions index types fuel (pc + 9) rest' w
+      | .ok (ifaceTy, rest1) =>
+        match readU32 rest1 with
+        | .error e => .error e
+        | .ok (slot, rest') =>
+          match types[ifaceTy.toNat]? with
+          | none => .error (.invalidIndex .type ifaceTy)
+          | some entry =>
+            if entry.kind ≠ .interface then .error (.invalidSection .callVirtualExpectsInterface) else
+            if slotOutOfRange entry slot then .error (.invalidSection .callVirtualSlotOutOfRange)
+            else walkInstructions index types fuel (pc + 9) rest' w
     | .typeIdx =>
       match readU32 rest with
       | .error e => .error e
@@ -1249,27 +1255,39 @@ def programNames (strings : List Bytes) : List PouEntry → Except Err (List Byt
 /-- `MAX_PROCESS_IMAGE_BYTES` (ffd16eb) -/
 def maxProcessImageBytes : Nat := 16777216
 
+/-- the per-task body of `validate_resource_meta` -/
+def validateTaskEntry (strings : List Bytes) (names : List Bytes) (nRefs : Nat) (t : TaskEntry) :
+    Except Err Unit := do
+  ensureIndex .string strings.length t.nameIdx
+  (match t.singleNameIdx with
+    | some s => ensureIndex .string strings.length s
+    | none => .ok ())
+  forM' t.programNameIdx fun idx => do
+    ensureIndex .string strings.length idx
+    (match strings[idx.toNat]? with
+      | none => .error (.invalidIndex .string idx)
+      | some name =>
+        if !names.contains (asciiUpper name) then .error (.invalidSection .taskUnknownProgram)
+        else .ok ())
+  forM' t.fbRefIdx fun idx => ensureIndex .ref nRefs idx
+
+/-- the bound on the three process image sizes (ffd16eb) -/
+def imageSizesOk (r : ResourceEntry) : Bool :=
+  decide (r.inputsSize.toNat ≤ maxProcessImageBytes) && decide (r.outputsSize.toNat ≤ maxProcessImageBytes)
+    && decide (r.memorySize.toNat ≤ maxProcessImageBytes)
+
+/-- the per-resource body of `validate_resource_meta` -/
+def validateResourceEntry (strings : List Bytes) (names : List Bytes) (nRefs : Nat) (r : ResourceEntry) :
+    Except Err Unit := do
+  ensureIndex .string strings.length r.nameIdx
+  (if imageSizesOk r then .ok () else .error (.invalidSection .processImageTooLarge))
+  forM' r.tasks (validateTaskEntry strings names nRefs)
+
 /-- `validate_resource_meta` -/
 def validateResourceMeta (strings : List Bytes) (nRefs : Nat) (index : List PouEntry)
     (resources : List ResourceEntry) : Except Err Unit := do
   let names ← programNames strings index
-  forM' resources fun r => do
-    ensureIndex .string strings.length r.nameIdx
-    if r.inputsSize.toNat > maxProcessImageBytes ∨ r.outputsSize.toNat > maxProcessImageBytes
-        ∨ r.memorySize.toNat > maxProcessImageBytes then
-      throw (.invalidSection .processImageTooLarge)
-    forM' r.tasks fun t => do
-      ensureIndex .string strings.length t.nameIdx
-      match t.singleNameIdx with
-      | some s => ensureIndex .string strings.length s
-      | none => pure ()
-      forM' t.programNameIdx fun idx => do
-        ensureIndex .string strings.length idx
-        match strings[idx.toNat]? with
-        | none => throw (.invalidIndex .string idx)
-        | some name =>
-          if !names.contains (asciiUpper name) then throw (.invalidSection .taskUnknownProgram)
-      forM' t.fbRefIdx fun idx => ensureIndex .ref nRefs idx
+  forM' resources (validateResourceEntry strings names nRefs)
 
 /-- `validate_io_map` -/
 def validateIoMap (nStrings nTypes nRefs : Nat) (bindings : List IoBinding) : Except Err Unit :=
@@ -1311,54 +1329,75 @@ def validateDebugMap (nStrings : Nat) (index : List PouEntry) (entries : List De
           .error (.invalidSection .debugOffsetOutOfBounds)
         else ensureIndex .string nStrings e.fileIdx
 
+def getStrings (m : Module) : Except Err (List Bytes) :=
+  match m.section idStringTable with
+  | some (.stringTable t) => .ok t
+  | _ => .error (.missingSection .stringTable)
+def getDebugStrings (m : Module) : Option (List Bytes) :=
+  match m.section idDebugStringTable with
+  | some (.debugStringTable t) => some t
+  | _ => none
+def getTypes (m : Module) : Except Err TypeTable :=
+  match m.section idTypeTable with
+  | some (.typeTable t) => .ok t
+  | _ => .error (.missingSection .typeTable)
+def getConstPool (m : Module) : Except Err (List ConstEntry) :=
+  match m.section idConstPool with
+  | some (.constPool p) => .ok p
+  | _ => .error (.missingSection .constPool)
+def getRefTable (m : Module) : Except Err (List RefEntry) :=
+  match m.section idRefTable with
+  | some (.refTable t) => .ok t
+  | _ => .error (.missingSection .refTable)
+def getPouIndex (m : Module) : Except Err (List PouEntry) :=
+  match m.section idPouIndex with
+  | some (.pouIndex i) => .ok i
+  | _ => .error (.missingSection .pouIndex)
+def getPouBodies (m : Module) : Except Err Bytes :=
+  match m.section idPouBodies with
+  | some (.pouBodies b) => .ok b
+  | _ => .error (.missingSection .pouBodies)
+def getResourceMeta (m : Module) : Except Err (List ResourceEntry) :=
+  match m.section idResourceMeta with
+  | some (.resourceMeta r) => .ok r
+  | _ => .error (.missingSection .resourceMeta)
+def getIoMap (m : Module) : Except Err (List IoBinding) :=
+  match m.section idIoMap with
+  | some (.ioMap b) => .ok b
+  | _ => .error (.missingSection .ioMap)
+
+/-- the optional sections at the end of `validate`: VAR_META, RETAIN_INIT, DEBUG_MAP -/
+def validateOptional (m : Module) (strings : List Bytes) (nTypes nConsts nRefs : Nat)
+    (pouIndex : List PouEntry) : Except Err Unit := do
+  (match m.section idVarMeta with
+    | some (.varMeta vm) => validateVarMeta strings.length nTypes nConsts nRefs vm
+    | _ => .ok ())
+  (match m.section idRetainInit with
+    | some (.retainInit ri) => validateRetainInit nConsts nRefs ri
+    | _ => .ok ())
+  (match m.section idDebugMap with
+    | some (.debugMap dm) =>
+      if m.minor ≥ 1 ∧ (getDebugStrings m).isNone then .error (.missingSection .debugStringTable)
+      else validateDebugMap ((getDebugStrings m).getD strings).length pouIndex dm
+    | _ => .ok ())
+
 /-- `BytecodeModule::validate` -/
 def validate (m : Module) : Except Err Unit := do
-  let strings ← match m.section idStringTable with
-    | some (.stringTable t) => pure t
-    | _ => throw (.missingSection .stringTable)
-  let debugStrings := match m.section idDebugStringTable with
-    | some (.debugStringTable t) => some t
-    | _ => none
-  let types ← match m.section idTypeTable with
-    | some (.typeTable t) => pure t
-    | _ => throw (.missingSection .typeTable)
-  let constPool ← match m.section idConstPool with
-    | some (.constPool p) => pure p
-    | _ => throw (.missingSection .constPool)
-  let refTable ← match m.section idRefTable with
-    | some (.refTable t) => pure t
-    | _ => throw (.missingSection .refTable)
-  let pouIndex ← match m.section idPouIndex with
-    | some (.pouIndex i) => pure i
-    | _ => throw (.missingSection .pouIndex)
-  let pouBodies ← match m.section idPouBodies with
-    | some (.pouBodies b) => pure b
-    | _ => throw (.missingSection .pouBodies)
-  let resourceMeta ← match m.section idResourceMeta with
-    | some (.resourceMeta r) => pure r
-    | _ => throw (.missingSection .resourceMeta)
-  let ioMap ← match m.section idIoMap with
-    | some (.ioMap b) => pure b
-    | _ => throw (.missingSection .ioMap)
+  let strings ← getStrings m
+  let types ← getTypes m
+  let constPool ← getConstPool m
+  let refTable ← getRefTable m
+  let pouIndex ← getPouIndex m
+  let pouBodies ← getPouBodies m
+  let resourceMeta ← getResourceMeta m
+  let ioMap ← getIoMap m
   validateTypeTable strings.length types.entries
   validateConstPool strings.length types.entries constPool
   validateRefTable strings.length refTable
   validatePouIndex strings.length types.entries constPool.length pouIndex pouBodies
   validateResourceMeta strings refTable.length pouIndex resourceMeta
   validateIoMap strings.length types.entries.length refTable.length ioMap
-  match m.section idVarMeta with
-  | some (.varMeta vm) =>
-    validateVarMeta strings.length types.entries.length constPool.length refTable.length vm
-  | _ => pure ()
-  match m.section idRetainInit with
-  | some (.retainInit ri) => validateRetainInit constPool.length refTable.length ri
-  | _ => pure ()
-  match m.section idDebugMap with
-  | some (.debugMap dm) =>
-    if m.minor ≥ 1 ∧ debugStrings.isNone then throw (.missingSection .debugStringTable)
-    let fileStrings := debugStrings.getD strings
-    validateDebugMap fileStrings.length pouIndex dm
-  | _ => pure ()
+  validateOptional m strings types.entries.length constPool.length refTable.length pouIndex
 
 /-! ## metadata.rs -/
 
@@ -1413,38 +1452,56 @@ def mapM' (xs : List α) (f : α → Except Err β) : Except Err (List β) :=
     let ys ← mapM' rest f
     pure (y :: ys)
 
+/-- the `match self.location` of `RefEntry::to_value_ref` -/
+def refLocation (e : RefEntry) : Except Err MemLoc :=
+  match e.location with
+  | .global => .ok MemLoc.global
+  | .local => .ok (MemLoc.local e.ownerId)
+  | .instance => .ok (MemLoc.instance e.ownerId)
+  | .retain => .ok MemLoc.retain
+  | .io =>
+    if e.ownerId = 0 then .ok MemLoc.ioInput
+    else if e.ownerId = 1 then .ok MemLoc.ioOutput
+    else if e.ownerId = 2 then .ok MemLoc.ioMemory
+    else .error (.invalidSection .invalidIoArea)
+
+/-- one path segment of `RefEntry::to_value_ref` -/
+def segToPath (strings : List Bytes) : RefSegment → Except Err PathSeg
+  | .index is => .ok (PathSeg.index is)
+  | .field n =>
+    match lookupString strings n with
+    | .error e => .error e
+    | .ok name => .ok (PathSeg.field name)
+
 /-- `RefEntry::to_value_ref` -/
-def toValueRef (strings : List Bytes) (e : RefEntry) : Except Err ValueRef := do
-  let location ← match e.location with
-    | .global => pure MemLoc.global
-    | .local => pure (MemLoc.local e.ownerId)
-    | .instance => pure (MemLoc.instance e.ownerId)
-    | .retain => pure MemLoc.retain
-    | .io =>
-      if e.ownerId = 0 then pure MemLoc.ioInput
-      else if e.ownerId = 1 then pure MemLoc.ioOutput
-      else if e.ownerId = 2 then pure MemLoc.ioMemory
-      else throw (.invalidSection .invalidIoArea)
-  let path ← mapM' e.segments fun
-    | .index is => pure (PathSeg.index is)
-    | .field n => do
-      let name ← lookupString strings n
-      pure (PathSeg.field name)
-  pure { location, offset := e.offset.toNat, path }
+def toValueRef (strings : List Bytes) (e : RefEntry) : Except Err ValueRef :=
+  match refLocation e with
+  | .error err => .error err
+  | .ok location =>
+    match mapM' e.segments (segToPath strings) with
+    | .error err => .error err
+    | .ok path => .ok { location, offset := e.offset.toNat, path }
+
+/-- `match task.single_name_idx { Some(idx) => Some(lookup_string(strings, idx)?), None => None }` -/
+def lookupOptString (strings : List Bytes) : Option UInt32 → Except Err (Option Bytes)
+  | none => .ok none
+  | some i =>
+    match lookupString strings i with
+    | .error e => .error e
+    | .ok s => .ok (some s)
+
+/-- one FB instance reference of a task -/
+def fbRefToValue (strings : List Bytes) (refs : List RefEntry) (idx : UInt32) : Except Err ValueRef :=
+  match refs[idx.toNat]? with
+  | none => .error (.invalidIndex .ref idx)
+  | some e => toValueRef strings e
 
 /-- the per-task body of `resource_to_metadata` -/
 def taskToConfig (strings : List Bytes) (refs : List RefEntry) (t : TaskEntry) : Except Err TaskConfig := do
   let name ← lookupString strings t.nameIdx
   let programs ← mapM' t.programNameIdx (lookupString strings)
-  let single ← match t.singleNameIdx with
-    | some i => do
-      let s ← lookupString strings i
-      pure (some s)
-    | none => pure none
-  let fbInstances ← mapM' t.fbRefIdx fun idx =>
-    match refs[idx.toNat]? with
-    | none => .error (.invalidIndex .ref idx)
-    | some e => toValueRef strings e
+  let single ← lookupOptString strings t.singleNameIdx
+  let fbInstances ← mapM' t.fbRefIdx (fbRefToValue strings refs)
   pure { name, intervalNanos := t.intervalNanos, single, priority := t.priority, programs, fbInstances }
 
 /-- `resource_to_metadata` -/
@@ -1457,15 +1514,9 @@ def resourceToMetadata (strings : List Bytes) (refs : List RefEntry) (r : Resour
 
 /-- `BytecodeModule::metadata` -/
 def metadata (m : Module) : Except Err Metadata := do
-  let strings ← match m.section idStringTable with
-    | some (.stringTable t) => pure t
-    | _ => throw (.missingSection .stringTable)
-  let resourceMeta ← match m.section idResourceMeta with
-    | some (.resourceMeta r) => pure r
-    | _ => throw (.missingSection .resourceMeta)
-  let refTable ← match m.section idRefTable with
-    | some (.refTable t) => pure t
-    | _ => throw (.missingSection .refTable)
+  let strings ← getStrings m
+  let resourceMeta ← getResourceMeta m
+  let refTable ← getRefTable m
   let resources ← mapM' resourceMeta (resourceToMetadata strings refTable)
   pure { major := m.major, minor := m.minor, resources }
 
